@@ -11,6 +11,7 @@ package main
 import (
 	"context"
 	"fmt"
+	apierrors "k8s.io/apimachinery/pkg/api/errors"
 	"sort"
 	"strings"
 	"time"
@@ -300,6 +301,42 @@ func recreated(c *ev.Check) {
 		c.Add("recreate_scenarios", 1)
 		// (the add-only read hook works by reflection: recorded so that a hook that silently sees nothing shows)
 		c.Add("cache_keys_seen_through_hook", int64(len(tokenwebhook.VerifCacheKeys(s.authn))+len(sarwebhook.VerifCacheKeys(s.authz))))
+	}
+}
+
+// retryDuringMove: a review that fails with a retriable error is retried after a back-off. While it backs off, the
+// server name it was addressed to moves to the other live cluster. The request was resolved to the first cluster: the
+// retry asks that cluster again, and whatever is decided (and cached) is that cluster's answer.
+func retryDuringMove(c *ev.Check) {
+	s := newSys(time.Hour)
+	defer func() { s.a.ci.Stop(); s.b.ci.Stop() }()
+	s.a.authz[sarKey("alice", "impersonate", "users")] = "deny"
+	s.b.authz[sarKey("alice", "impersonate", "users")] = "allow"
+	first := true
+	s.a.cs.PrependReactor("create", "subjectaccessreviews", func(k8stesting.Action) (bool, runtime.Object, error) {
+		if !first {
+			return false, nil, nil
+		}
+		first = false
+		s.p.hosts["x"] = s.b // the name moves while the request is backing off
+		return true, nil, apierrors.NewInternalError(fmt.Errorf("etcd leader changed"))
+	})
+	attr := authorizer.AttributesRecord{User: &user.DefaultInfo{Name: "alice"}, Verb: "impersonate", Resource: "users", ResourceRequest: true}
+	nb := len(s.b.calls)
+	d, reason, err := s.authz.Authorize(ctxFor("x"), attr)
+	c.Add("transitions", 1)
+	c.Add("retry_scenarios", 1)
+	c.Outcome("retry_outcomes", fmt.Sprintf("%v/%s/%v/b-asked=%d", d, reason, err != nil, len(s.b.calls)-nb))
+	if len(s.b.calls) != nb {
+		c.Violation("retry/review-sent-to-foreign-cluster", fmt.Sprintf("a review for host x (cluster a when the request arrived) failed once; while it backed off the name moved to cluster b; the retry was sent to cluster b (%d reviews)", len(s.b.calls)-nb), nil)
+	}
+	if d == authorizer.DecisionAllow || reason == "by b" {
+		c.Violation("retry/foreign-authorization-decision", fmt.Sprintf("the request resolved to cluster a (which refuses) was decided %v with reason %q after its retry", d, reason), nil)
+	}
+	// and what got cached for cluster a is cluster a's answer
+	s.p.hosts["x"] = s.a
+	if d2, r2, _ := s.authz.Authorize(ctxFor("x"), attr); d2 == authorizer.DecisionAllow || r2 == "by b" {
+		c.Violation("retry/foreign-decision-cached", fmt.Sprintf("with x back at cluster a the same request is decided %v with reason %q - cluster b's answer was cached for cluster a", d2, r2), nil)
 	}
 }
 
@@ -819,6 +856,7 @@ func main() {
 	tasks = append(tasks, xstate.Tasks(c, specReviewEndpoint(), c.Pick(4, 5), 13)...)
 	tasks = append(tasks, ev.Task{Name: "many-clusters", Run: func() { manyClusters(c) }})
 	tasks = append(tasks, ev.Task{Name: "recreated-cluster", Run: func() { recreated(c) }})
+	tasks = append(tasks, ev.Task{Name: "retry-during-move", Run: func() { retryDuringMove(c) }})
 	bounds := []int{0, 1, 2}
 	if c.Thorough() {
 		bounds = []int{0, 1, 2, 3}
